@@ -39,9 +39,9 @@ func c01tparams(t *types.Type) string {
 // writeModule writes the program as a Go module "ex.test" and returns its directory.
 func writeModule(dir string, prog []GenPkg) {
 	os.MkdirAll(dir, 0755)
-	os.WriteFile(filepath.Join(dir, "go.mod"), []byte("module ex.test\n\ngo 1.20\n"), 0644)
+	os.WriteFile(filepath.Join(dir, "go.mod"), []byte("module "+pgModule+"\n\ngo 1.20\n"), 0644)
 	for _, gp := range prog {
-		d := filepath.Join(dir, strings.TrimPrefix(gp.Path, "ex.test/"))
+		d := filepath.Join(dir, strings.TrimPrefix(gp.Path, pgModule+"/"))
 		os.MkdirAll(d, 0755)
 		os.WriteFile(filepath.Join(d, "file.go"), []byte(gp.Src), 0644)
 	}
@@ -87,7 +87,16 @@ func c05load(g *Gen, i int, path string, files map[string]string, names []string
 		os.WriteFile(filepath.Join(d, n), []byte(files[n]), 0644)
 	}
 	p := parser.New()
-	if err := p.LoadPackagesWithConfigForTesting(&packages.Config{Dir: dir, Env: append(os.Environ(), "GOFLAGS=-mod=mod", "GOWORK=off")}, path); err != nil {
+	cfg := &packages.Config{Dir: dir, Env: append(os.Environ(), "GOFLAGS=-mod=mod", "GOWORK=off")}
+	if c05depFirst {
+		ud := filepath.Join(dir, "c05user")
+		os.MkdirAll(ud, 0755)
+		os.WriteFile(filepath.Join(ud, "user.go"), []byte("package c05user\n\nimport _ \""+path+"\"\n"), 0644)
+		if err := p.LoadPackagesWithConfigForTesting(cfg, "ex.test/c05user"); err != nil {
+			return nil, err
+		}
+	}
+	if err := p.LoadPackagesWithConfigForTesting(cfg, path); err != nil {
 		return nil, err
 	}
 	return p.NewUniverse()
@@ -115,6 +124,12 @@ func c12load(g *Gen, i int, tags []string, path string, files map[string]string,
 	pattern := path
 	if c12root != "" {
 		pattern = c12root + "/..."
+	}
+	if c12viaImporter {
+		write(path+"user", "user.go", "package c12user\n\nimport _ \""+path+"\"\n")
+		if err := p.LoadPackagesWithConfigForTesting(&packages.Config{Dir: dir, Env: append(os.Environ(), "GOFLAGS=-mod=mod", "GOWORK=off")}, path+"user"); err != nil {
+			return nil, err
+		}
 	}
 	if err := p.LoadPackagesWithConfigForTesting(&packages.Config{Dir: dir, Env: append(os.Environ(), "GOFLAGS=-mod=mod", "GOWORK=off")}, pattern); err != nil {
 		return nil, err
